@@ -41,6 +41,7 @@ SEM = {
     "arith.ori": lambda a, b: a | b, "arith.xori": lambda a, b: a ^ b,
     "arith.addf": lambda a, b: a + b, "arith.subf": lambda a, b: a - b, "arith.mulf": lambda a, b: a * b,
     "arith.maximumf": lambda a, b: max(a, b), "arith.minimumf": lambda a, b: min(a, b),
+    "arith.divf": lambda a, b: a / b if b != 0 else Fraction(10 ** 9) + a,  # total stand-in, used consistently
 }
 
 
@@ -54,7 +55,7 @@ def _op_cls(name):
     return {"arith.addi": arith.AddiOp, "arith.subi": arith.SubiOp, "arith.muli": arith.MuliOp,
             "arith.andi": arith.AndIOp, "arith.ori": arith.OrIOp, "arith.xori": arith.XOrIOp,
             "arith.addf": arith.AddfOp, "arith.subf": arith.SubfOp, "arith.mulf": arith.MulfOp,
-            "arith.maximumf": arith.MaximumfOp, "arith.minimumf": arith.MinimumfOp}[name]
+            "arith.maximumf": arith.MaximumfOp, "arith.minimumf": arith.MinimumfOp, "arith.divf": arith.DivfOp}[name]
 
 
 # ------------------------------------------------------------------------------------------------
@@ -92,6 +93,89 @@ def real_encode(body, name="acc"):
     mod, gen = build_generic(body)
     pe = convert_generic_body_to_phs(gen, name, PatternRewriter(gen))
     return pe, (mod, gen)
+
+
+# ------------------------------------------------------------------------------------------------
+# graphs given directly (hand-built with the dialect's constructors), e.g. the inputs of the upstream tests
+def real_pe_from_json(j, name="myfirstaccelerator"):
+    """a real phs.pe built with ChooseOp.from_operations / MuxOp / PEOp from canonical JSON"""
+    from snaxc.dialects import phs
+    from xdsl.dialects.builtin import FunctionType, IndexType
+    from xdsl.ir import Block, Region
+    nd, nsw = len(j["arg_tys"]), len(j["switches"])
+    blk = Block(arg_types=[_mlir_ty(t) for t in j["arg_tys"]] + [IndexType()] * nsw)
+    nodes, ops, keep = [], [], []
+
+    def val(s):
+        if s[0] == "a":
+            return blk.args[s[1]]
+        if s[0] == "n":
+            return nodes[s[1]].results[0]
+        mux = phs.MuxOp(val(s[2]), val(s[3]), blk.args[nd + s[1]])
+        ops.append(mux)
+        return mux.results[0]
+
+    for n in j["nodes"]:
+        opnds = [val(x) for x in n["operands"]]
+        tmp = Block(arg_types=[v.type for v in opnds])  # raw operations over values of their own
+        keep.append(tmp)
+        raw = [_op_cls(nm)(*tmp.args) for nm, _ in n["ops"]]
+        tmp.add_ops(raw)
+        ch = phs.ChooseOp.from_operations(n["id"], opnds, blk.args[nd + n["sw"]], raw, [_mlir_ty(n["res_ty"])])
+        ops.append(ch)
+        nodes.append(ch)
+    y = val(j["yield"])
+    ops.append(phs.YieldOp(y))
+    blk.add_ops(ops)
+    pe = phs.PEOp(name, FunctionType.from_lists(list(blk.arg_types), [y.type]), nsw, Region(blk))
+    return pe, keep
+
+
+def upstream_graphs():
+    """the six processing elements of /repo/tests/dialects/phs/create_input.py, built by the upstream code"""
+    import importlib.util
+    import os
+    p = os.path.join(compat.REPO, "tests/dialects/phs/create_input.py")
+    spec = importlib.util.spec_from_file_location("c20_upstream_create_input", p)
+    m = importlib.util.module_from_spec(spec)
+    spec.loader.exec_module(m)
+    return list(m.create_test_input())
+
+
+def recorded_upstream():
+    import json
+    import os
+    return json.load(open(os.path.join(os.path.dirname(os.path.abspath(__file__)), "c20_upstream.json")))
+
+
+def gen_graphs_case(rng, source):
+    gs = recorded_upstream()
+    idx = list(range(len(gs)))
+    base = rng.choice(idx)
+    rest = [i for i in idx if i != base]
+    rng.shuffle(rest)
+    plan = [base] + rest[:rng.choice([0, 1, 2, 2, 3, 3, 4])]
+    return {"kind": "graphs", "source": source, "graphs": gs, "plan": plan}
+
+
+def case_groups(case):
+    """merge plan: list of groups of body indices; a group of several kernels is merged into a graph of its
+    own first and that graph is then appended as a whole. Default: one kernel per step."""
+    return case.get("groups") or [[i] for i in range(len(case["bodies"]))]
+
+
+def real_group_graph(bodies, grp, keep):
+    """fresh real objects: encode the first body of the group, append the others"""
+    from snaxc.phs.combine import append_to_abstract_graph
+    if not grp:
+        raise ValueError("empty group")
+    g, owner = real_encode(bodies[grp[0]])
+    keep.append(owner)
+    for i in grp[1:]:
+        k, owner = real_encode(bodies[i])
+        keep.append(owner)
+        append_to_abstract_graph(k, g)
+    return g
 
 
 class Unrepresentable(Exception):
@@ -405,6 +489,68 @@ def gen_history(rng, tier, maxmux):
     return bodies[:1]
 
 
+def rename_ops(rng, body):
+    """same routing, other operation names: merging such kernels inserts no mux"""
+    ops = [[rng.choice(INT_OPS if o[1] == I32 else FLT_OPS), o[1], [list(x) for x in o[2]]] for o in body["ops"]]
+    return {"arg_tys": body["arg_tys"], "ops": ops, "yield": list(body["yield"])}
+
+
+def gen_grouped(rng, tier, maxmux):
+    """merge plan with groups: some groups are merged into a graph of their own first (multi-operation choose
+    ops, `ChooseOp.from_operations` with several operations); groups whose own graph needs a mux are rejected by
+    `append_to_abstract_graph` (NotImplementedError), which both sides must agree on"""
+    for _ in range(30):
+        bodies = gen_history(rng, tier, maxmux)
+        groups = []
+        out = []
+        for b in bodies:
+            r = rng.random()
+            if r < 0.55:
+                k = rng.choice([2, 2, 3])
+                grp = [b] + [rename_ops(rng, b) for _ in range(k - 1)]
+                if rng.random() < 0.25:  # one member with another routing: the group graph gets a mux
+                    grp[-1] = gen_body(rng, b["arg_tys"], len(b["ops"]), True, b)
+            else:
+                grp = [b]
+            groups.append(list(range(len(out), len(out) + len(grp))))
+            out.extend(grp)
+        if len(out) <= 7 and mux_estimate(out) <= maxmux and any(len(g) > 1 for g in groups):
+            order = list(range(len(groups)))
+            rng.shuffle(order)
+            return out, [groups[i] for i in order]
+    return bodies, [[i] for i in range(len(bodies))]
+
+
+def gen_from_ops(rng):
+    """raw operations (operands may repeat) handed to PEOp.from_operations"""
+    ty = rng.choice([I32, I32, F32])
+    nargs = rng.choice([1, 2, 3])
+    arg_tys = [ty] * nargs
+    n = rng.choice([1, 2, 2, 3, 3, 4]) if rng.random() < 0.95 else 0
+    ops = []
+    for k in range(n):
+        t = ty
+        if rng.random() < 0.07:
+            t = F32 if ty == I32 else I32  # operations of different types: the constructor asserts
+        if t != ty and t not in arg_tys:
+            arg_tys = arg_tys + [t]
+        cand = [["a", i] for i, a in enumerate(arg_tys) if a == t]
+        a = rng.choice(cand)
+        b = a if rng.random() < 0.4 else rng.choice(cand)
+        ops.append([rng.choice(INT_OPS if t == I32 else FLT_OPS), t, [a, b]])
+    return {"kind": "from_ops", "arg_tys": arg_tys, "ops": ops}
+
+
+def real_from_ops(case):
+    from snaxc.dialects import phs
+    from xdsl.dialects.builtin import SymbolRefAttr
+    from xdsl.ir import Block
+    blk = Block(arg_types=[_mlir_ty(t) for t in case["arg_tys"]])
+    raw = [_op_cls(name)(*[blk.args[s[1]] for s in srcs]) for name, _, srcs in case["ops"]]
+    blk.add_ops(raw)
+    return phs.PEOp.from_operations(SymbolRefAttr("acc"), raw), blk
+
+
 def gen_malformed(rng):
     """outside the quantifier: kernels of one history disagree on the interface, or do not use an argument"""
     nd = rng.choice([2, 3])
@@ -461,10 +607,27 @@ class C20(Prop):
             if rng.random() < 0.1:
                 yield {"kind": "malformed", "bodies": gen_malformed(rng)}
                 continue
+            if rng.random() < 0.04:
+                yield gen_from_ops(rng)
+                continue
+            if rng.random() < 0.04:
+                yield gen_graphs_case(rng, rng.choice(["upstream", "json"]))
+                continue
+            if rng.random() < 0.15:
+                bodies, groups = gen_grouped(rng, tier, maxmux)
+                yield {"kind": "grouped", "bodies": bodies, "groups": groups}
+                continue
             bodies = gen_history(rng, tier, maxmux)
             rng.shuffle(bodies)
             yield {"kind": "history", "bodies": bodies}
         if tier == "thorough":
+            # the upstream test inputs in every merge plan of up to three graphs, built by the upstream code and by
+            # the harness's own builder
+            gs = recorded_upstream()
+            for k in (1, 2, 3):
+                for plan in itertools.permutations(range(len(gs)), k):
+                    for source in ("upstream", "json"):
+                        yield {"kind": "graphs", "source": source, "graphs": gs, "plan": list(plan)}
             # exhaustive: every ordered history of <= 3 kernels drawn from a fixed pool of 1-op/2-op bodies
             # over two i32 ports and two ops, every merge order
             pool = []
@@ -499,7 +662,145 @@ class C20(Prop):
             # block argument ends up wired as data); the model side recognises the same situation
             return {"unrepresentable": True}
 
+    def _impl_from_ops(self, case):
+        try:
+            pe, blk = real_from_ops(case)
+        except (AssertionError, IndexError, ValueError) as e:
+            return {"raised": type(e).__name__}
+        pe.verify()
+        pj, _, _ = pe_json(pe)
+        n = len(pe.data_operands())
+        terms = []
+        for i in range(len(case["ops"])):
+            try:
+                terms.append(eval_pe(pe, sym_inputs(n), [i], sym_sem))
+            except Invalid:
+                terms.append(None)
+        return {"pe": pj, "true": pe.get_true_switches(), "concrete": pe.is_concrete(), "terms": terms}
+
+    def _graphs_objects(self, case, keep):
+        if case["source"] == "upstream":
+            pes = upstream_graphs()
+            if [pe_json(p)[0] for p in pes] != case["graphs"]:
+                return None
+            return pes
+        pes = []
+        for g in case["graphs"]:
+            pe, k = real_pe_from_json(g)
+            keep.append(k)
+            pes.append(pe)
+        return pes
+
+    def _impl_graphs(self, case):
+        from snaxc.phs.combine import append_to_abstract_graph
+        from snaxc.phs.decode import decode_abstract_graph
+        keep = []
+        gs = self._graphs_objects(case, keep)       # decoded against the element
+        merged = self._graphs_objects(case, keep)   # fresh objects: the element and what is appended to it
+        if gs is None or merged is None:
+            return {"upstream_inputs_differ_from_recorded": True}
+        plan = case["plan"]
+        out = {"steps": []}
+        if not plan:
+            return out
+        abst = merged[plan[0]]
+        for t, i in enumerate(plan):
+            if t > 0:
+                try:
+                    append_to_abstract_graph(merged[i], abst)
+                except Unrepresentable:
+                    raise
+                except Exception as e:  # noqa: BLE001
+                    out["steps"].append({"raised": type(e).__name__})
+                    break
+            pj, ssa_ok, _ = pe_json(abst)
+            decs = []
+            for k in gs:
+                try:
+                    sw = [int(x) for x in decode_abstract_graph(abst, k)]
+                except Exception as e:  # noqa: BLE001
+                    decs.append({"raised": type(e).__name__})
+                    continue
+                full = full_switches(abst, sw)
+                try:
+                    term = eval_pe(abst, sym_inputs(len(abst.data_operands())), full, sym_sem)
+                except Invalid:
+                    term = None
+                decs.append({"sw": sw, "full": full, "term": term})
+            try:
+                self_dec = {"sw": [int(x) for x in decode_abstract_graph(abst, abst)]}
+            except Exception as e:  # noqa: BLE001
+                self_dec = {"raised": type(e).__name__}
+            out["steps"].append({"pe": pj, "ssa_ok": ssa_ok, "true": abst.get_true_switches(), "dec": decs,
+                                 "self": self_dec})
+        return out
+
+    def _oracle_graphs(self, case):
+        """for plans that merge concrete graphs (kernels) only: every merged one decodes, the count is right, the
+        element under the decoded switches computes what the kernel itself computes"""
+        from snaxc.phs.combine import append_to_abstract_graph
+        from snaxc.phs.decode import decode_abstract_graph
+        keep = []
+        gs = self._graphs_objects(case, keep)
+        merged = self._graphs_objects(case, keep)
+        if gs is None or merged is None:
+            return [{"what": "the upstream test inputs are not the recorded ones (tests/dialects/phs/create_input.py or "
+                             "the constructors it uses changed)", "finding": None}]
+        plan = case["plan"]
+        if not plan or not all(gs[i].is_concrete() for i in plan):
+            return []
+        sigs = [[ty_json(a.type) for a in gs[i].data_operands()] for i in plan]
+        if any(s_ != sigs[0] for s_ in sigs):
+            return []
+        out = []
+        abst = merged[plan[0]]
+        n = len(sigs[0])
+        rnd = random.Random(len(plan) * 31 + n)
+        for t, i in enumerate(plan):
+            if t > 0:
+                try:
+                    append_to_abstract_graph(merged[i], abst)
+                except Exception as e:  # noqa: BLE001
+                    return [{"what": f"merging graph {i} raised {type(e).__name__}: {str(e)[:120]}", "finding": None}]
+            for k in plan[:t + 1]:
+                try:
+                    sw = [int(x) for x in decode_abstract_graph(abst, gs[k])]
+                except Exception as e:  # noqa: BLE001
+                    out.append({"what": f"graph {k} is undecodable after {t + 1} merges: {type(e).__name__}", "finding": None})
+                    continue
+                if len(sw) != abst.get_true_switches():
+                    out.append({"what": f"decode of graph {k} yields {len(sw)} values, get_true_switches() = "
+                                        f"{abst.get_true_switches()}", "finding": None})
+                    continue
+                full = full_switches(abst, sw)
+                zeros = [0] * gs[k].switch_no.value.data
+                try:
+                    got = eval_pe(abst, sym_inputs(n), full, sym_sem)
+                    want = eval_pe(gs[k], sym_inputs(n), zeros, sym_sem)
+                except Invalid as e:
+                    out.append({"what": f"graph {k} after {t + 1} merges is not evaluable ({e})", "finding": None})
+                    continue
+                if got == want:
+                    continue
+                for p in concrete_inputs(sigs[0], rnd):
+                    try:
+                        g_ = eval_pe(abst, p, full, conc_sem)
+                    except Invalid as e:
+                        g_ = f"invalid: {e}"
+                    w = eval_pe(gs[k], p, zeros, conc_sem)
+                    if g_ != w:
+                        out.append({"what": f"graph {k} after {t + 1} merges: merged element computes {g_} instead of "
+                                            f"{w} on inputs {[str(x) for x in p]} under switches {full}", "finding": None})
+                        break
+            if out:
+                return out
+        return out
+
     def _impl(self, case):
+        if case["kind"] == "from_ops":
+            return self._impl_from_ops(case)
+        if case["kind"] == "graphs":
+            return self._impl_graphs(case)
         from snaxc.phs.combine import append_to_abstract_graph
         from snaxc.phs.decode import decode_abstract_graph
         bodies = case["bodies"]
@@ -523,20 +824,29 @@ class C20(Prop):
                 kterm.append(eval_pe(k, sym_inputs(len(k.data_operands())), [0] * k.switch_no.value.data, sym_sem))
             except Invalid:
                 kterm.append(None)
-        out = {"enc": enc, "kterm": kterm, "steps": []}
+        bterm = []
+        for b in bodies:  # reference semantics of the body itself (independent of encode)
+            try:
+                bterm.append(eval_body(b, sym_inputs(len(used_args(b))), sym_sem))
+            except (KeyError, IndexError):
+                bterm.append(None)
+        out = {"enc": enc, "kterm": kterm, "bterm": bterm, "steps": []}
         if len(ks) != len(bodies) or not ks:
             return out
-        abst, owner = real_encode(bodies[0])
-        keep.append(owner)
-        for t in range(len(bodies)):
-            if t > 0:
-                try:
-                    append_to_abstract_graph(ks[t], abst)
-                except Unrepresentable:
-                    raise
-                except Exception as e:  # noqa: BLE001
-                    out["steps"].append({"raised": type(e).__name__})
-                    break
+        groups = case_groups(case)
+        abst = None
+        for t, grp in enumerate(groups):
+            try:
+                g = real_group_graph(bodies, grp, keep)
+                if t == 0:
+                    abst = g
+                else:
+                    append_to_abstract_graph(g, abst)
+            except Unrepresentable:
+                raise
+            except Exception as e:  # noqa: BLE001
+                out["steps"].append({"raised": type(e).__name__})
+                break
             pj, ssa_ok, uniq = pe_json(abst)
             decs = []
             for k in ks:
@@ -551,15 +861,27 @@ class C20(Prop):
                 except Invalid:
                     term = None
                 decs.append({"sw": sw, "full": full, "term": term})
+            try:  # the element decoded against itself: only a concrete graph may be decoded
+                self_dec = {"sw": [int(x) for x in decode_abstract_graph(abst, abst)]}
+            except Exception as e:  # noqa: BLE001
+                self_dec = {"raised": type(e).__name__}
             out["steps"].append({"pe": pj, "ssa_ok": ssa_ok, "hyp_ok": True, "true": abst.get_true_switches(),
-                                 "dec": decs})
+                                 "dec": decs, "self": self_dec})
         return out
 
     # -- the model ----------------------------------------------------------------------------
     def requests(self, case):
+        if case["kind"] == "from_ops":
+            return [{"fn": "c20.fromops", "args": {"ops": [
+                [name, [case["arg_tys"][s[1]] for s in srcs], rty] for name, rty, srcs in case["ops"]]}}]
+        if case["kind"] == "graphs":
+            return [{"fn": "c20.graphs", "args": {"graphs": case["graphs"], "plan": case["plan"]}}]
         if not all(well_typed(b) for b in case["bodies"]):
             return []
-        return [{"fn": "c20.history", "args": {"bodies": case["bodies"]}}]
+        args = {"bodies": case["bodies"]}
+        if case.get("groups"):
+            args["groups"] = case["groups"]
+        return [{"fn": "c20.history", "args": args}]
 
     def model(self, case, answers):
         if not answers:
@@ -568,6 +890,8 @@ class C20(Prop):
         if "ok" not in a:
             return {"model_error": a.get("err")}
         out = a["ok"]
+        if case["kind"] in ("from_ops", "graphs"):
+            return out
 
         def switch_as_data(src, nd):
             if src[0] == "a":
@@ -589,6 +913,10 @@ class C20(Prop):
         """Runs the real code again (fresh objects) and evaluates the property with the PE interpreter."""
         from snaxc.phs.combine import append_to_abstract_graph
         from snaxc.phs.decode import decode_abstract_graph
+        if case["kind"] == "from_ops":
+            return self._oracle_from_ops(case)
+        if case["kind"] == "graphs":
+            return self._oracle_graphs(case)
         bodies = case["bodies"]
         if not all(well_typed(b) for b in bodies) or not bodies:
             return []
@@ -603,36 +931,53 @@ class C20(Prop):
                 pe, owner = real_encode(b)
                 keep.append(owner)
                 ks.append(pe)
-            abst, owner = real_encode(bodies[0])
-            keep.append(owner)
         except Exception as e:  # noqa: BLE001
             return [{"what": f"encoding a kernel body raised {type(e).__name__}: {str(e)[:120]}", "finding": None}]
         rnd = random.Random(len(bodies) * 7919 + len(sig))
         pts = None
-        for t in range(len(bodies)):
-            if t > 0:
+        groups = case_groups(case)
+        merged = []
+        abst = None
+        for t, grp in enumerate(groups):
+            try:
+                g = real_group_graph(bodies, grp, keep)
+            except Exception as e:  # noqa: BLE001
+                out.append({"what": f"merging the kernels {grp} raised {type(e).__name__}: {str(e)[:120]}", "finding": None})
+                return out
+            if t == 0:
+                abst = g
+            else:
+                from snaxc.dialects import phs as _phs
+                has_mux = any(isinstance(o, _phs.MuxOp) for o in g.body.block.ops)
                 try:
-                    append_to_abstract_graph(ks[t], abst)
-                except Exception as e:  # noqa: BLE001
-                    out.append({"what": f"merging kernel {t} raised {type(e).__name__}: {str(e)[:120]}", "finding": None})
+                    append_to_abstract_graph(g, abst)
+                except NotImplementedError as e:
+                    if has_mux:
+                        return out  # a graph with muxes is not accepted as `graph`: documented, not a violation
+                    out.append({"what": f"merging group {t} raised NotImplementedError: {str(e)[:120]}", "finding": None})
                     return out
+                except Exception as e:  # noqa: BLE001
+                    out.append({"what": f"merging group {t} raised {type(e).__name__}: {str(e)[:120]}", "finding": None})
+                    return out
+            merged = merged + list(grp)
             true_sw = abst.get_true_switches()
-            for i in range(t + 1):
+            for i in merged:
                 try:
                     sw = [int(x) for x in decode_abstract_graph(abst, ks[i])]
                 except Exception as e:  # noqa: BLE001
-                    out.append({"what": f"kernel {i} is undecodable after merging {t + 1} kernels: {type(e).__name__}",
+                    out.append({"what": f"kernel {i} is undecodable after merging {len(merged)} kernels: {type(e).__name__}",
                                 "finding": None})
                     continue
                 if len(sw) != true_sw:
                     out.append({"what": f"decode of kernel {i} yields {len(sw)} values, get_true_switches() = {true_sw}",
                                 "finding": None})
                     continue
+                out.extend(self._call_op(abst, ks[i], sw, i))
                 full = full_switches(abst, sw)
                 try:
                     got = eval_pe(abst, sym_inputs(len(sig)), full, sym_sem)
                 except Invalid as e:
-                    out.append({"what": f"kernel {i} after {t + 1} merges: decoded configuration is not evaluable ({e})",
+                    out.append({"what": f"kernel {i} after {len(merged)} merges: decoded configuration is not evaluable ({e})",
                                 "finding": None})
                     continue
                 if got == eval_body(bodies[i], sym_inputs(len(sig)), sym_sem):
@@ -642,12 +987,12 @@ class C20(Prop):
                     pts = concrete_inputs(sig, rnd)
                 for p in pts:
                     try:
-                        g = eval_pe(abst, p, full, conc_sem)
+                        g_ = eval_pe(abst, p, full, conc_sem)
                     except Invalid as e:
-                        g = f"invalid: {e}"
+                        g_ = f"invalid: {e}"
                     w = eval_body(bodies[i], p, conc_sem)
-                    if g != w:
-                        out.append({"what": f"kernel {i} after {t + 1} merges: merged element computes {g} instead of {w} "
+                    if g_ != w:
+                        out.append({"what": f"kernel {i} after {len(merged)} merges: merged element computes {g_} instead of {w} "
                                             f"on inputs {[str(x) for x in p]} under switches {full}", "finding": None})
                         break
             if out:
@@ -658,6 +1003,53 @@ class C20(Prop):
         except Exception as e:  # noqa: BLE001
             out.append({"what": f"SNAXPHSAccelerator switch fields: {type(e).__name__}: {str(e)[:160]}", "finding": None})
         return out
+
+    def _oracle_from_ops(self, case):
+        """PEOp.from_operations: under switch value i the element computes operation i of its data ports, port j
+        feeding operand j"""
+        ops = case["ops"]
+        if not ops or len({tuple(o[1]) for o in ops}) != 1:
+            return []  # nothing promised: no operation / operations of different types (the constructor asserts)
+        pe, blk = real_from_ops(case)
+        n = len(pe.data_operands())
+        out = []
+        if n != 2:
+            out.append({"what": f"PEOp.from_operations: {n} data ports for binary operations", "finding": None})
+        if pe.get_true_switches() != (1 if len(ops) > 1 else 0):
+            out.append({"what": "PEOp.from_operations: get_true_switches() is not 1 for several / 0 for one operation",
+                        "finding": None})
+        for i, (name, _, _) in enumerate(ops):
+            try:
+                got = eval_pe(pe, sym_inputs(n), [i], sym_sem)
+            except Invalid as e:
+                got = f"invalid: {e}"
+            want = [name, sym_inputs(n)]
+            if got != want:
+                out.append({"what": f"PEOp.from_operations: under switch {i} the element computes {got}, expected {want}",
+                            "finding": None})
+        return out
+
+    def _call_op(self, abst, k, sw, i):
+        """decode_to_call_op: the emitted phs.call carries exactly the decoded values, in order"""
+        from snaxc.dialects import phs
+        from snaxc.phs.decode import decode_to_call_op
+        from xdsl.dialects import arith
+        ops = list(decode_to_call_op(abst, k))
+        if not ops or not isinstance(ops[-1], phs.CallOp):
+            return [{"what": f"decode_to_call_op of kernel {i} does not end in a phs.call", "finding": None}]
+        call = ops[-1]
+        consts = ops[:-1]
+        vals = [c.value.value.data for c in consts if isinstance(c, arith.ConstantOp)]
+        bad = []
+        if vals != list(sw) or len(consts) != len(sw):
+            bad.append(f"switch constants {vals} != decoded values {list(sw)}")
+        if [o.owner for o in call.switches] != consts:
+            bad.append("the call's switch operands are not the emitted constants, in order")
+        if list(call.data_operands) != list(abst.data_operands()):
+            bad.append("the call's data operands are not the element's data ports")
+        if call.name_prop.data != abst.name_prop.data:
+            bad.append("the call names another element")
+        return [{"what": f"decode_to_call_op of kernel {i}: {b}", "finding": None} for b in bad]
 
     def _accelerator_fields(self, abst, bodies):
         from snaxc.accelerators.snax_phs import SNAXPHSAccelerator
@@ -670,6 +1062,20 @@ class C20(Prop):
         out = []
         if nfields != len([f for f in acc.fields if f.startswith("phs_switch_")]):
             out.append({"what": "phs_switch fields missing from the accelerator's field list", "finding": None})
+        if nfields != abst.get_true_switches():
+            out.append({"what": f"accelerator reports {nfields} switch fields, get_true_switches() = {abst.get_true_switches()}",
+                        "finding": None})
+        # the accfg.accelerator op: one CSR per switch field, no address shared with another field
+        op = acc.generate_acc_op()
+        fields = {k: v.value.data for k, v in op.fields.data.items()}
+        launch = {k: v.value.data for k, v in op.launch_fields.data.items()}
+        sw_fields = [k for k in fields if k.startswith("phs_switch_")]
+        if sorted(sw_fields) != sorted(acc.phs_switch_fields):
+            out.append({"what": f"accfg.accelerator declares switch fields {sw_fields}, expected {acc.phs_switch_fields}",
+                        "finding": None})
+        addrs = list(fields.values()) + list(launch.values()) + [op.barrier.value.data]
+        if len(set(addrs)) != len(addrs):
+            out.append({"what": "accfg.accelerator of the PHS accelerator maps two fields to one CSR address", "finding": None})
         for i, b in enumerate(bodies):
             mod, gen = build_generic(b)
             vals = acc.get_switch_values(gen)
@@ -679,6 +1085,10 @@ class C20(Prop):
         return out
 
     def nontrivial(self, case, impl_out):
+        if case["kind"] == "from_ops":
+            return isinstance(impl_out, dict) and len(impl_out.get("terms", [])) > 1
+        if case["kind"] == "graphs":
+            return isinstance(impl_out, dict) and len(impl_out.get("steps", [])) > 1
         if not isinstance(impl_out, dict) or not impl_out.get("steps") or len(case["bodies"]) < 2:
             return False
         last = impl_out["steps"][-1]
@@ -688,6 +1098,11 @@ class C20(Prop):
 
     def stats_key(self, case, impl_out):
         k = case.get("kind", "case")
+        if k == "from_ops":
+            return f"{k}:raised:{impl_out['raised']}" if "raised" in impl_out else f"{k}:n={len(case['ops'])}"
+        if k == "graphs":
+            last = (impl_out.get("steps") or [{}])[-1] if isinstance(impl_out, dict) else {}
+            return f"{k}:{case['source']}:" + (f"merge-raised:{last['raised']}" if "raised" in last else f"n={len(case['plan'])}")
         if isinstance(impl_out, dict) and "raised" in impl_out:
             return f"{k}:raised:{impl_out['raised']}"
         if isinstance(impl_out, dict) and impl_out.get("steps"):
@@ -698,7 +1113,25 @@ class C20(Prop):
         return f"{k}:no-steps"
 
     def shrink(self, case):
+        if case["kind"] == "graphs":
+            for i in range(1, len(case["plan"])):
+                yield dict(case, plan=case["plan"][:i] + case["plan"][i + 1:])
+            return
+        if case["kind"] == "from_ops":
+            for i in range(len(case["ops"])):
+                yield {"kind": "from_ops", "arg_tys": case["arg_tys"], "ops": case["ops"][:i] + case["ops"][i + 1:]}
+            return
         bodies = case["bodies"]
+        if case.get("groups"):
+            groups = case["groups"]
+            # drop a whole group (re-index), or flatten the plan
+            for gi in range(len(groups)):
+                if len(groups) > 1:
+                    keepi = [i for g in groups[:gi] + groups[gi + 1:] for i in g]
+                    remap = {old: new for new, old in enumerate(sorted(keepi))}
+                    yield {"kind": case["kind"], "bodies": [bodies[i] for i in sorted(keepi)],
+                           "groups": [[remap[i] for i in g] for g in groups[:gi] + groups[gi + 1:]]}
+            return
         for i in range(len(bodies)):
             if len(bodies) > 1:
                 yield {"kind": case["kind"], "bodies": bodies[:i] + bodies[i + 1:]}
